@@ -88,29 +88,28 @@ func (c *vCtx) try(kind, req string, opf func() string, class string, honest, mu
 	c.record(e)
 }
 
-// sampling: the middle square of each group contributes one honest case and up to three
-// wrong-data cases (of different operator classes and requests) per kind to the evidence samples.
+// sampling: the middle square of each group contributes, for a rotating pair of container
+// kinds, one honest case and two wrong-data cases (different operator classes and requests)
+// to the evidence samples.
 func (c *vCtx) sampling(kind, class, req string, honest, equal bool) bool {
-	if c.sample == nil {
+	h := c.sample
+	if h == nil || (len(h.kinds) > 0 && !h.kinds[kind]) {
 		return false
 	}
-	c.sample.mu.Lock()
-	defer c.sample.mu.Unlock()
+	h.mu.Lock()
+	defer h.mu.Unlock()
 	if honest {
-		if c.sample.seen[kind+"/honest"] {
+		if h.seen[kind+"/honest"] {
 			return false
 		}
-		c.sample.seen[kind+"/honest"] = true
+		h.seen[kind+"/honest"] = true
 		return true
 	}
-	if equal || c.sample.seen[kind+"/full"] || c.sample.seen[class] || c.sample.seen[kind+req] {
+	if equal || h.n[kind] >= 2 || h.seen[class] || h.seen[kind+req] {
 		return false
 	}
-	c.sample.seen[class], c.sample.seen[kind+req] = true, true
-	c.sample.n[kind]++
-	if c.sample.n[kind] >= 3 {
-		c.sample.seen[kind+"/full"] = true
-	}
+	h.seen[class], h.seen[kind+req] = true, true
+	h.n[kind]++
 	return true
 }
 
@@ -308,6 +307,9 @@ func (c *vCtx) enumRows(reduced bool) {
 			return func() (error, []libshare.Share) {
 				row := shwap.NewRow(shs, side)
 				err := row.Verify(S.DAH, idx)
+				if err != nil {
+					return err, nil // a rejected row exposes nothing
+				}
 				out, serr := row.Shares()
 				if serr != nil {
 					out = nil // accepted but cannot expose: nil differs from the reference
@@ -974,6 +976,9 @@ func (c *vCtx) honestProducersC01() {
 					func() (error, []libshare.Share) {
 						row := half.ToRow()
 						err := row.Verify(S.DAH, r)
+						if err != nil {
+							return err, nil
+						}
 						out, serr := row.Shares()
 						if serr != nil {
 							out = nil
@@ -1191,6 +1196,9 @@ func (c *vCtx) c01WireCases() []wireCase {
 		ref := S.Row(x.idx)
 		rowOut := func(r *shwap.Row) (error, error, []libshare.Share) {
 			verr := r.Verify(S.DAH, x.idx)
+			if verr != nil {
+				return nil, verr, nil
+			}
 			shs, serr := r.Shares()
 			if serr != nil {
 				shs = nil
